@@ -51,3 +51,45 @@ def exec_stream(tier, rng, P, only=None, cases=None):
                   "values) are lexed and run by the real code; Model.Exec runs on the *real* token list; events of every track (glide samples +-1), final "
                   "track states (pointer, channel, l, o, v, q, t, key), current track, play-from point and random seed must be identical; token lists "
                   "outside the modelled subset are skipped. non-trivial = distinct event lists", timeout_case=20.0)
+
+
+SUPPORTED = {"note", "noteN", "rest", "l", "o", "orel", "v", "vrel", "q", "t", "loop", "sub", "div", "chord", "tr", "ch", "tsync"}
+def _supported(cmds):
+    for c in cmds:
+        if c[0] not in SUPPORTED: return False
+        if c[0] == "loop" and not (_supported(c[2]) and _supported(c[3] or [])): return False
+        if c[0] in ("sub", "div", "chord") and not _supported(c[1]): return False
+    return True
+
+def compile_stream(tier, rng, P, only=None, cases=None):
+    """the token list Ex2.compileL assigns to a program (the list exec_refines_sem is about) against the real lexer on the printed program"""
+    big = tier == "thorough"
+    def mk():
+        cs = []
+        n = 12000 if big else 1500
+        tries = 0
+        while len(cs) < n and tries < n * 6:
+            tries += 1
+            prog = mml.gen_cmds(rng, 2, rng.randrange(1, 8), top=(rng.random() < 0.4))
+            if not _supported(prog): continue
+            src = mml.pr(prog)
+            if "\n" in src: continue
+            cs.append(dict(req="tokens " + hx(src), src=src, show=src[:300], sexp=mml.sexp(prog), prog=prog, key="k%d" % len(cs)))
+        return cs
+    def model(c, st, f): return ["compile " + hx(c["sexp"])]
+    def judge(c, impl, m):
+        st, f = impl
+        if st != "ok": return None
+        if "toks=" not in m[0]: return ("mismatch", "compileL failed: " + m[0][:100])
+        mt = m[0].split("toks=")[1].split(" ")[0]
+        if mt != f["toks"]:
+            a = unhx(f["toks"]).decode("utf-8", "replace").split(" ("); b = unhx(mt).decode("utf-8", "replace").split(" (")
+            for x, y in zip(a, b):
+                if x != y: return ("mismatch", "the lexer's tokens for the printed program differ from compileL: real (%s  compileL (%s" % (x[:150], y[:150]))
+            return ("mismatch", "token lists differ in length: real %d compileL %d" % (len(a), len(b)))
+        return None
+    def nt(c, impl, m): return m[0][:300] if impl[0] == "ok" else None
+    return Stream("compile", cases if (cases and only == "compile") else mk(), model, judge, nt,
+                  "compile: random programs of the core language (the fragment of exec_refines_sem: notes, numbered notes, rests, l o v q t, < > ( ), loops with ':', "
+                  "Sub, tuplets, chords, TR, CH, TrackSync) printed on one line and lexed by the real lexer; the token list must be exactly Ex2.compileL of the "
+                  "program (the list the refinement theorem is about). non-trivial = distinct token lists", timeout_case=20.0)
